@@ -387,7 +387,38 @@ def layout_gen(faults, hist=(), plan=None, top="ra.as", standins=None, tail=0, k
     return {"files": files, "top": top, "standins": dict(standins or {})}
 
 
-LAYOUTS = {"gen": layout_gen, "same": layout_same, "inc": layout_inc, "line": layout_line, "if": layout_if,
+def layout_adj(faults, k=0, where=1, style="blank", mode="inc"):
+    """Two messages that are adjacent in the report and have the SAME line number n = k + 6 without being on
+    the same line (the layouts of spec/ReportGen.tla at a chosen size).  mode inc: the last fault of the included
+    file is on its line n, the next fault of the includer on its own line n;  line: a fault on line n, then
+    `#line n "adj.src"' renumbers the next fault to line n of another name;  same: the same with `#line n'
+    (two different lines that are both line n of one file);  rev: the renumbered stretch comes first, then
+    an included file with a fault on its line n.  The k lines are code-free lines before the faults."""
+    _need(len(faults) >= 2 and all(ft.phase == "sem" for ft in faults))
+    n = k + 6
+    a, b = faults[0], faults[1]
+    rest = faults[2:]
+    files, standins = {}, {}
+    tailf = _faults_block(rest, sep=False)
+    if mode == "inc":
+        files["inc1.as"] = [lines(2, "comment")] + gap(k, style) + [lines(3, "code"), fault_item(a)]
+        files[TOP] = prelude() + gap(k, style) + [lines(1, "code"), include("inc1.as"), fault_item(b)] + tailf + _uses(faults)
+    elif mode in ("line", "same"):
+        nm = "adj.src" if mode == "line" else ""
+        files[TOP] = prelude() + gap(k, style) + [lines(2, "code"), fault_item(a), lines(1, "comment"), linedir(n, nm), fault_item(b)] + \
+            tailf + _uses(faults)
+        if nm:
+            standins[nm] = n + 3
+    elif mode == "rev":
+        files["inc1.as"] = [lines(2, "comment")] + gap(k, style) + [lines(3, "code"), fault_item(b)]
+        files[TOP] = prelude() + [linedir(n, "adj.src"), fault_item(a), include("inc1.as")] + tailf + _uses(faults)
+        standins["adj.src"] = n + 3
+    else:
+        raise ValueError(mode)
+    return {"files": files, "top": TOP, "standins": standins}
+
+
+LAYOUTS = {"adj": layout_adj, "gen": layout_gen, "same": layout_same, "inc": layout_inc, "line": layout_line, "if": layout_if,
            "incline": layout_inc_line, "ifinc": layout_ifinc, "collide": layout_collide, "eofif": layout_eofif}
 
 
